@@ -19,7 +19,7 @@ MANIFEST_META = {
     },
     "not_applicable": {},
     "pending_reason": "check not built yet in this session (see DESIGN.md section 4 for the planned generated-input check); not claimed until it runs silently on the unchanged tree",
-    "notes": "Hook commits in /repo: 18eadf4 (WALReader.VerifPageMap), 6fb4a7e (VFSFile.VerifPoll), c6fb1fc (verifPhase: phase hook points in the sync/checkpoint/snapshot/close pipeline; an empty function without the verif tag), 0835903 (one more hook point before the PASSIVE checkpoint barrier), 8688370 (hook point between a snapshot's position and its reader). Genuine defects found by the checks were repaired with separate fix: commits in /repo (listed as fixed: lines in known_findings.txt); defects recorded rather than repaired are the finding: lines there. See DESIGN.md sections 9-11.",
+    "notes": "Hook commits in /repo: 18eadf4 (WALReader.VerifPageMap), 6fb4a7e (VFSFile.VerifPoll), c6fb1fc (verifPhase: phase hook points in the sync/checkpoint/snapshot/close pipeline; an empty function without the verif tag), 0835903 (one more hook point before the PASSIVE checkpoint barrier), 8688370 (hook point between a snapshot's position and its reader). Genuine defects found by the checks were repaired with separate fix: commits in /repo (listed as fixed: lines in known_findings.txt); defects recorded rather than repaired are the finding: lines there. See DESIGN.md sections 9-12.",
 }
 
 PROPS = {
